@@ -131,6 +131,7 @@ func sharedSnapshot() string {
 		fmt.Sprintf("harness: TLSConfig of the Dialer shared by all sessions: ServerName=%q MinVersion=%d RootCAs-nil=%t NextProtos=%v", sharedTLS.ServerName, sharedTLS.MinVersion, sharedTLS.RootCAs == nil, sharedTLS.NextProtos),
 		"harness: shared Dialer="+renderValue(reflect.ValueOf(sharedDialer)),
 		fmt.Sprintf("harness: read-only payloads shared by all sessions: %s %s %s", digest(sharedPayloads[0]), digest(sharedPayloads[1]), digest(sharedPayloads[2])),
+		"harness: offers of the Dialer shared by all shared-dialer sessions: "+renderSharedOffers(),
 		fmt.Sprintf("ws.StatusRanges=%v %v %v %v", ws.StatusRangeNotInUse, ws.StatusRangeProtocol, ws.StatusRangeApplication, ws.StatusRangePrivate),
 	)
 	return strings.Join(lines, "\n")
